@@ -24,7 +24,21 @@ import (
 func init() { suites["codecs"] = suiteCodecs }
 
 func codecBody(r *rng) ([]byte, string) {
-	switch r.intn(9) {
+	switch r.intn(12) {
+	case 9:
+		// data that looks like a gzip stream to a sniffing eye: the two magic bytes and anything, or a real .gz file
+		if r.chance(50) {
+			return append([]byte{0x1f, 0x8b}, r.bytes(r.intn(400))...), "gzip-magic"
+		}
+		return encGzip(r.bytes(1 + r.intn(2000))), "gzip-file"
+	case 10:
+		// incompressible and well beyond one internal buffer of any of the codecs
+		return r.bytes(150000 + r.intn(250000)), "random-huge"
+	case 11:
+		if r.chance(12) {
+			return make([]byte, 17<<20), "zeros-17MB"
+		}
+		return bytes.Repeat([]byte("0123456789abcdef"), 70000), "repetitive-1MB"
 	case 0:
 		return nil, "empty"
 	case 1:
@@ -102,12 +116,37 @@ func stdDecode(format string, data []byte) ([]byte, error) {
 	return io.ReadAll(brotli.NewReader(bytes.NewReader(data)))
 }
 
+// zstdRawFrame: a valid zstd frame (RFC 8878) made of raw blocks, whose header declares a window of 2^windowLog bytes
+// and no content size
+func zstdRawFrame(body []byte, windowLog int) []byte {
+	out := []byte{0x28, 0xb5, 0x2f, 0xfd, 0x00, byte((windowLog - 10) << 3)}
+	const blk = 128 << 10
+	if len(body) == 0 {
+		return append(out, 0x01, 0x00, 0x00)
+	}
+	for off := 0; off < len(body); off += blk {
+		end := off + blk
+		last := 0
+		if end >= len(body) {
+			end, last = len(body), 1
+		}
+		h := uint32((end-off)<<3) | uint32(last)
+		out = append(out, byte(h), byte(h>>8), byte(h>>16))
+		out = append(out, body[off:end]...)
+	}
+	return out
+}
+
 func suiteCodecs(r *rng, n int) {
 	var kept, keptDec []keptStream
 	for i := 0; i < n && !codecsAbort; i++ {
 		cr := r.fork(uint64(i))
 		body, cls := codecBody(cr)
-		switch cr.intn(4) {
+		op := cr.intn(4)
+		if cls == "zeros-17MB" {
+			op = 1 // the decoders' side only: what an origin may send
+		}
+		switch op {
 		case 0: // encoders at a configured level
 			gl, bl := cr.intn(16)-2, cr.intn(16)-2
 			levels := map[string]uint{}
@@ -187,6 +226,18 @@ func suiteCodecs(r *rng, n int) {
 					res = "mismatch"
 				}
 				emit("codecs", "dec", f, "0", hx(cls), itoa(int64(len(body))), "=>", res)
+				if f == "zst" && len(body) <= 1<<20 {
+					// the same body in a frame whose header declares a large window (the ENCODER's choice: streaming
+					// encoders at high levels and `--long` declare 8 MB .. 128 MB whatever the payload size)
+					wl := 21 + cr.intn(7)
+					fr := zstdRawFrame(body, wl)
+					d, res := guarded(func() ([]byte, error) { return srv.Decompress("zst", fr) })
+					if res == "ok" && !bytes.Equal(d, body) {
+						res = "mismatch"
+					}
+					emit("codecs", "dec", "zst", itoa(int64(wl)), hx(cls), itoa(int64(len(body))), "=>", res)
+					stat("dec-zst-window")
+				}
 				// what EARLIER decoder calls returned is kept by the caller (a cached raw body): still intact?
 				for _, k := range keptDec {
 					kres := "ok"
